@@ -388,5 +388,31 @@ theorem serveSeq_inv (cfg : Cfg) (env : Env D E) (hg : Good cfg) (hist : List (R
     simp only [serveSeq]
     exact ih _ _ (runAll_inv cfg env hg _ s hi) (serveOne_spec cfg env s hi hh n r ch).2
 
+/-- the APQ mutator changes nothing but, for a hash-only request, the query text - and then to a registered text -/
+theorem apqCore_own (env : Env D E) (look : String → Option String) (p p' : Params) (add : Option (String × String))
+    (h : apqCore env look p = .ok (p', add)) :
+    p'.opName = p.opName ∧ p'.vars = p.vars ∧ p'.exts = p.exts ∧ p'.hdrs = p.hdrs ∧ p'.readTime = p.readTime ∧
+    (p'.query = p.query ∨ (p.query = "" ∧ ∃ hash, look hash = some p'.query)) := by
+  unfold apqCore at h
+  split at h
+  · simp only [Except.ok.injEq, Prod.mk.injEq] at h; rw [← h.1]; simp
+  · split at h
+    · simp only [Except.ok.injEq, Prod.mk.injEq] at h; rw [← h.1]; simp
+    · simp at h
+    · simp at h
+    · rename_i hash _
+      split at h
+      · rename_i hq
+        split at h
+        · simp at h
+        · rename_i q hl
+          simp only [Except.ok.injEq, Prod.mk.injEq] at h
+          rw [← h.1]
+          exact ⟨rfl, rfl, rfl, rfl, rfl, Or.inr ⟨hq, hash, hl⟩⟩
+      · split at h
+        · simp only [Except.ok.injEq, Prod.mk.injEq] at h; rw [← h.1]; simp
+        · simp at h
+
+
 end
 end GqlgenVerif.SS
